@@ -46,7 +46,7 @@ def main():
         for r_, flds in st.heap.items():
             if st.objcls.get(r_, '').endswith('SeedProgress') or len(st.heap) < 4:
                 print('   heap', r_, st.objcls.get(r_), {f: str(concretize(m, v, st))[:120] for f, v in flds.items() if not f.startswith('$')})
-        print('   pc tail:', [str(z3.simplify(c))[:160] for c in st.pc[-8:]])
+        print('   pc tail:', [str(z3.simplify(c))[:160] for c in st.pc[-14:]])
         print('  goal:', str(z3.simplify(goal))[:1500])
         break
 
